@@ -49,8 +49,8 @@ def delayed_source_cases(tier):
 
 def systematic(tier):
     cs = [c for c in templates.c01_cases(tier) + templates.sibling_cases(tier) if _no_delayed(c)]
-    if tier == "quick":
-        cs = cs[::12]
+    # every batch costs two fresh interpreters: the templates are sub-sampled in both tiers
+    cs = cs[::12] if tier == "quick" else cs[::4]
     ds = delayed_source_cases(tier)
     return [{"batch": cs[i : i + BATCH]} for i in range(0, len(cs), BATCH)] + [{"batch": ds[i : i + BATCH], "only_part": "collisions"} for i in range(0, len(ds), BATCH)]
 
